@@ -82,6 +82,11 @@ CHECKS["C08"] = dict(
     note="Trusted: pysym interpreter/models (list.remove/index call the interpreted Block.__eq__), z3. Known finding listed in known_findings.json.",
     ref="§4 C08")
 
+CHECKS["C06"] = dict(
+    text="Libraries of every listed shape (entries with 0..3 fields and key lengths 1..4, string, preamble, comments, failed and duplicate blocks; singles and all pairs, thorough: triples) are written by the real writer under a symbolic format (value_column 0..14 or auto, trailing_comma, symbolic indent/separator characters, default and custom failed-block comment) with symbolic key/value/text characters; z3 decides per final world that the text equals the rendering the statement describes, built term by term from the same symbols, and that the format object is unchanged.",
+    note="Trusted: pysym interpreter/models, z3. Renderings of @string/@preamble/comments are the writer's documented forms.",
+    ref="§4 C06")
+
 NOT_YET = "check not built yet in this round (engine exists; harness pending)"
 
 def main():
